@@ -623,6 +623,8 @@ class LogQ:
     def _lift(o):
         if isinstance(o, LogQ):
             return o.q
+        if isinstance(o, Q) and o.is_const():
+            o = float(o.c)      # e.g. a symbolic span fraction times the log-value 0.0
         if isinstance(o, np.ndarray) or isinstance(o, Q):
             return None
         if _is_num(o):
